@@ -690,3 +690,268 @@ func (n *Net) RecipeLockAttack() string {
 
 // StartRoundOne is the exported form of startRoundOne.
 func (n *Net) StartRoundOne(i int, h int64) bool { return n.startRoundOne(i, h) }
+
+// RecipeRelockAttack targets the bookkeeping of a re-lock on the SAME block:
+// c1 locks A in round r, a polka for another block B forms in round r+1 but is
+// withheld from c1, A is re-proposed in round r+2 where c1 re-locks it and c2
+// decides A with the faulty precommits; only then the stale round-(r+1) polka
+// reaches c1.  A correct c1 stays locked (its lock is from r+2 now); if the
+// re-lock did not advance the lock round, c1 unlocks and can be led to decide
+// a third block C in round r+3 — a fork the agreement monitor sees.
+func (n *Net) RecipeRelockAttack() string {
+	if len(n.Faulty) == 0 || len(n.Order) < 3 {
+		return "n/a"
+	}
+	lo, hi := n.MinMaxHeight()
+	if lo != hi {
+		return "heights-differ"
+	}
+	h := hi
+	if !n.startRound(h) {
+		return "cannot-start-round"
+	}
+	perm := n.R.Perm(len(n.Order))
+	c1, c2 := n.Order[perm[0]], n.Order[perm[1]]
+	var rest []int // the other correct nodes (c3, ...)
+	for _, i := range n.Order {
+		if i != c1 && i != c2 {
+			rest = append(rest, i)
+		}
+	}
+	notC1 := append([]int{c2}, rest...)
+	r0 := n.Nodes[c1].CS.GetRoundState().Round
+	for _, i := range n.Order {
+		if n.Nodes[i].CS.GetRoundState().Round != r0 {
+			return "rounds-differ"
+		}
+	}
+	now := time.Now()
+	vals := n.Nodes[c1].CS.GetRoundState().Validators
+	byzVotes := func(typ tmproto.SignedMsgType, round int32, bid types.BlockID, to []int) {
+		for _, g := range n.Faulty {
+			if n.ValIndex(vals, g) < 0 {
+				continue
+			}
+			v := n.SignVote(vals, g, typ, h, round, bid, now)
+			for _, i := range to {
+				n.Send(g, i, &cs.VoteMessage{Vote: v})
+			}
+		}
+	}
+	deliverVotes := func(typ tmproto.SignedMsgType, round int32, to []int, from func(int) bool) {
+		n.DeliverWhere(6000, func(e *Envelope) bool {
+			v, ok := isVote(e, typ)
+			return ok && in(to, e.To) && v.Height == h && v.Round == round && from(e.From)
+		})
+	}
+	anyFrom := func(int) bool { return true }
+	passPrecommitWait := func(nodes []int, round int32) {
+		for _, i := range nodes {
+			rs := n.Nodes[i].CS.GetRoundState()
+			if t, p := n.Nodes[i].Ticker.Pending(); p && rs.Height == h && rs.Round == round && t.Height == h && t.Round == round && t.Step == cstypes.RoundStepPrecommitWait {
+				n.FireTimeout(i)
+			}
+		}
+	}
+	// ---------------- round r0: c1 alone locks A
+	prop := n.ProposerAt(n.Nodes[c1], r0)
+	if n.IsFaulty[prop] {
+		kb := n.ByzBlock(n.Nodes[c1], prop, r0, 31, "")
+		if kb == nil {
+			return "byz-cannot-build"
+		}
+		msgs := n.ProposalMsgs(prop, kb, h, r0, -1)
+		for _, i := range n.Order {
+			n.Send(prop, i, msgs...)
+		}
+	}
+	n.DeliverWhere(3000, isProposalOrPart)
+	rs1 := n.Nodes[c1].CS.GetRoundState()
+	if rs1.ProposalBlock == nil {
+		return "no-proposal-block"
+	}
+	A := types.BlockID{Hash: rs1.ProposalBlock.Hash(), PartSetHeader: rs1.ProposalBlockParts.Header()}
+	byzVotes(tmproto.PrevoteType, r0, A, []int{c1})
+	byzVotes(tmproto.PrevoteType, r0, types.BlockID{}, notC1) // equivocation by the faulty validators: allowed
+	deliverVotes(tmproto.PrevoteType, r0, []int{c1}, anyFrom)
+	if n.Nodes[c1].CS.GetRoundState().LockedBlock == nil {
+		return "c1-not-locked"
+	}
+	deliverVotes(tmproto.PrevoteType, r0, notC1, func(f int) bool { return f != c1 }) // no polka for the others
+	for _, i := range notC1 {
+		rs := n.Nodes[i].CS.GetRoundState()
+		if rs.Height == h && rs.Round == r0 && rs.Step <= cstypes.RoundStepPrevoteWait {
+			n.FireTimeout(i)
+		}
+	}
+	byzVotes(tmproto.PrecommitType, r0, types.BlockID{}, n.Order)
+	deliverVotes(tmproto.PrecommitType, r0, n.Order, anyFrom)
+	passPrecommitWait(n.Order, r0)
+	r1 := r0 + 1
+	for _, i := range n.Order {
+		if rs := n.Nodes[i].CS.GetRoundState(); rs.Height != h || rs.Round != r1 {
+			return "no-round-r1"
+		}
+	}
+	// ---------------- round r1: a polka for B exists in the network but nobody sees it; c1 sees nothing of it
+	n.startRound(h)
+	p1 := n.ProposerAt(n.Nodes[c2], r1)
+	if p1 == c1 {
+		return "c1-proposes-r1"
+	}
+	if n.IsFaulty[p1] {
+		if kb := n.ByzBlock(n.Nodes[c2], p1, r1, 32, ""); kb != nil {
+			msgs := n.ProposalMsgs(p1, kb, h, r1, -1)
+			for _, i := range notC1 {
+				n.Send(p1, i, msgs...)
+			}
+		}
+	}
+	n.DeliverWhere(3000, func(e *Envelope) bool { return isProposalOrPart(e) && in(notC1, e.To) })
+	rs2 := n.Nodes[c2].CS.GetRoundState()
+	if rs2.ProposalBlock == nil || string(rs2.ProposalBlock.Hash()) == string(A.Hash) {
+		return "no-competing-block-r1"
+	}
+	B := types.BlockID{Hash: rs2.ProposalBlock.Hash(), PartSetHeader: rs2.ProposalBlockParts.Header()}
+	// the others exchange their B prevotes (not enough for a polka without the faulty ones) and c1's prevote for A
+	if rs := n.Nodes[c1].CS.GetRoundState(); rs.Step == cstypes.RoundStepPropose {
+		n.FireTimeout(c1) // c1 has no proposal for r1: it prevotes its locked block
+	}
+	deliverVotes(tmproto.PrevoteType, r1, notC1, func(f int) bool { return !n.IsFaulty[f] })
+	for _, i := range notC1 {
+		rs := n.Nodes[i].CS.GetRoundState()
+		if rs.Height == h && rs.Round == r1 && rs.Step <= cstypes.RoundStepPrevoteWait {
+			n.FireTimeout(i)
+		}
+	}
+	// the B prevotes addressed to c1 stay in flight (held back); the faulty B prevotes are created now, delivered later
+	var heldForC1 []*Envelope
+	keep := n.InFlight[:0]
+	for _, e := range n.InFlight {
+		if v, ok := isVote(e, tmproto.PrevoteType); ok && e.To == c1 && v.Height == h && v.Round == r1 {
+			heldForC1 = append(heldForC1, e)
+			continue
+		}
+		keep = append(keep, e)
+	}
+	n.InFlight = keep
+	for _, g := range n.Faulty {
+		if n.ValIndex(vals, g) >= 0 {
+			heldForC1 = append(heldForC1, &Envelope{From: g, To: c1, Msg: &cs.VoteMessage{Vote: n.SignVote(vals, g, tmproto.PrevoteType, h, r1, B, now)}})
+		}
+	}
+	byzVotes(tmproto.PrecommitType, r1, types.BlockID{}, n.Order)
+	deliverVotes(tmproto.PrecommitType, r1, n.Order, anyFrom)
+	passPrecommitWait(n.Order, r1)
+	r2 := r1 + 1
+	for _, i := range n.Order {
+		if rs := n.Nodes[i].CS.GetRoundState(); rs.Height != h || rs.Round != r2 {
+			return "no-round-r2"
+		}
+	}
+	// ---------------- round r2: A is proposed again; c1 re-locks, c2 decides A
+	n.startRound(h)
+	p2 := n.ProposerAt(n.Nodes[c1], r2)
+	switch {
+	case n.IsFaulty[p2]:
+		kb := n.Known[string(A.Hash)]
+		if kb == nil || kb.Block == nil {
+			return "A-unknown"
+		}
+		msgs := n.ProposalMsgs(p2, kb, h, r2, -1)
+		for _, i := range n.Order {
+			n.Send(p2, i, msgs...)
+		}
+	case p2 == c1:
+		// c1 proposes its valid block A with POL round r0: the others need the round-r0 prevotes to accept it
+		deliverVotes(tmproto.PrevoteType, r0, notC1, anyFrom)
+	default:
+		return "r2-proposer-would-not-repropose-A"
+	}
+	n.DeliverWhere(3000, isProposalOrPart)
+	byzVotes(tmproto.PrevoteType, r2, A, []int{c1, c2})
+	byzVotes(tmproto.PrevoteType, r2, types.BlockID{}, rest)
+	deliverVotes(tmproto.PrevoteType, r2, []int{c1, c2}, anyFrom)
+	if rs := n.Nodes[c2].CS.GetRoundState(); rs.LockedBlock == nil || string(rs.LockedBlock.Hash()) != string(A.Hash) {
+		return "c2-did-not-lock-A-in-r2"
+	}
+	byzVotes(tmproto.PrecommitType, r2, A, []int{c2})
+	deliverVotes(tmproto.PrecommitType, r2, []int{c2}, func(f int) bool { return f == c1 || f == c2 || n.IsFaulty[f] })
+	decidedA := n.Nodes[c2].Blocks.Height() >= h
+	// the rest: 2/3-any prevotes without a polka, then nil precommits
+	deliverVotes(tmproto.PrevoteType, r2, rest, func(f int) bool { return n.IsFaulty[f] || in(rest, f) || f == c2 })
+	for _, i := range rest {
+		rs := n.Nodes[i].CS.GetRoundState()
+		if rs.Height == h && rs.Round == r2 && rs.Step <= cstypes.RoundStepPrevoteWait {
+			n.FireTimeout(i)
+		}
+	}
+	// ---------------- now the stale round-r1 polka for B reaches c1
+	for _, e := range heldForC1 {
+		n.Deliver(e)
+	}
+	stillLocked := n.Nodes[c1].CS.GetRoundState().LockedBlock != nil
+	// c1 and the rest go on to r3 (c2 has decided and is gone)
+	goOn := append([]int{c1}, rest...)
+	byzVotes(tmproto.PrecommitType, r2, types.BlockID{}, goOn)
+	deliverVotes(tmproto.PrecommitType, r2, goOn, func(f int) bool { return f != c2 })
+	passPrecommitWait(goOn, r2)
+	// ---------------- rounds r3..r5: push a third block C at c1 and the rest
+	for att := int32(0); att < 3; att++ {
+		r3 := r2 + 1 + att
+		okRound := true
+		for _, i := range goOn {
+			if rs := n.Nodes[i].CS.GetRoundState(); rs.Height != h || rs.Round != r3 {
+				okRound = false
+			}
+		}
+		if !okRound {
+			break
+		}
+		for _, i := range goOn {
+			n.startRoundOne(i, h)
+		}
+		p3 := n.ProposerAt(n.Nodes[c1], r3)
+		if n.IsFaulty[p3] && len(rest) > 0 {
+			if kb := n.ByzBlock(n.Nodes[rest[0]], p3, r3, 33+int(att), ""); kb != nil {
+				msgs := n.ProposalMsgs(p3, kb, h, r3, -1)
+				for _, i := range goOn {
+					n.Send(p3, i, msgs...)
+				}
+			}
+		}
+		n.DeliverWhere(3000, func(e *Envelope) bool { return isProposalOrPart(e) && in(goOn, e.To) })
+		var C types.BlockID
+		if len(rest) > 0 {
+			if rs := n.Nodes[rest[0]].CS.GetRoundState(); rs.ProposalBlock != nil && string(rs.ProposalBlock.Hash()) != string(A.Hash) {
+				C = types.BlockID{Hash: rs.ProposalBlock.Hash(), PartSetHeader: rs.ProposalBlockParts.Header()}
+			}
+		}
+		for _, i := range goOn {
+			if rs := n.Nodes[i].CS.GetRoundState(); rs.Height == h && rs.Round == r3 && rs.Step == cstypes.RoundStepPropose {
+				n.FireTimeout(i)
+			}
+		}
+		byzVotes(tmproto.PrevoteType, r3, C, goOn)
+		byzVotes(tmproto.PrecommitType, r3, C, goOn)
+		for k := 0; k < 3; k++ {
+			n.DeliverWhere(6000, func(e *Envelope) bool {
+				vm, ok := e.Msg.(*cs.VoteMessage)
+				return ok && in(goOn, e.To) && vm.Vote.Height == h && vm.Vote.Round == r3 && e.From != c2
+			})
+			for _, i := range goOn {
+				rs := n.Nodes[i].CS.GetRoundState()
+				if t, p := n.Nodes[i].Ticker.Pending(); p && rs.Height == h && rs.Round == r3 && t.Round == r3 && (t.Step == cstypes.RoundStepPrevoteWait || t.Step == cstypes.RoundStepPrecommitWait) {
+					n.FireTimeout(i)
+				}
+			}
+		}
+	}
+	switch {
+	case decidedA && stillLocked:
+		return "c2-decided-A;c1-kept-lock"
+	case decidedA:
+		return "c2-decided-A;c1-UNLOCKED-by-stale-polka"
+	}
+	return "relock-without-decision"
+}
